@@ -47,6 +47,17 @@ use salsa::Durability;
 pub use symbol::{DefId, IdentName};
 pub use tags::TagId;
 
+/// Whether `ty` holds a kind that `rejected` answers `true` for, looking through the containers that
+/// implement a derivable trait exactly when their arguments do (`Vec`, `BTreeSet`, `BTreeMap`, `Arc`).
+/// Paths are followed by `AutoDerivePlugin` itself.
+fn holds_kind(ty: &ty::Ty, rejected: &impl Fn(&ty::TyKind) -> bool) -> bool {
+    match &ty.kind {
+        ty::Vec(el) | ty::BTreeSet(el) | ty::Arc(el) => holds_kind(el, rejected),
+        ty::BTreeMap(k, v) => holds_kind(k, rejected) || holds_kind(v, rejected),
+        kind => rejected(kind),
+    }
+}
+
 pub trait MakeBackend: Sized {
     type Target: CodegenBackend;
     fn make_backend(self, context: Context) -> Self::Target;
@@ -375,11 +386,7 @@ where
         cx.exec_plugin(AutoDerivePlugin::new(
             Arc::from(["#[derive(PartialOrd)]".into()]),
             |ty| {
-                let mut ty = ty;
-                while let ty::Vec(_ty) = &ty.kind {
-                    ty = _ty;
-                }
-                if matches!(ty.kind, ty::Map(_, _) | ty::Set(_)) {
+                if holds_kind(ty, &|kind| matches!(kind, ty::Map(_, _) | ty::Set(_))) {
                     PredicateResult::No
                 } else {
                     PredicateResult::GoOn
@@ -390,11 +397,9 @@ where
         cx.exec_plugin(AutoDerivePlugin::new(
             Arc::from(["#[derive(Hash, Eq, Ord)]".into()]),
             |ty| {
-                let mut ty = ty;
-                while let ty::Vec(_ty) = &ty.kind {
-                    ty = _ty;
-                }
-                if matches!(ty.kind, ty::Map(_, _) | ty::Set(_) | ty::F64 | ty::F32) {
+                if holds_kind(ty, &|kind| {
+                    matches!(kind, ty::Map(_, _) | ty::Set(_) | ty::F64 | ty::F32)
+                }) {
                     PredicateResult::No
                 } else {
                     PredicateResult::GoOn
